@@ -52,14 +52,32 @@ def gen_policy(rng):
     return rules
 
 
+_calls = [0]
+
+
 def run_tool(policy_path, access_path, apply_rule, is_admin, target_path):
     from oslo_policy import shell
+    import sys
+    from unittest import mock
     buf = io.StringIO()
+    _calls[0] += 1
     try:
         with contextlib.redirect_stdout(buf):
-            shell.tool(policy_path, access_path, apply_rule, is_admin, target_path)
+            if _calls[0] % 2:
+                # the command line itself: options given only when they apply
+                argv = ['oslopolicy-checker', '--policy', policy_path, '--access', access_path]
+                if apply_rule:
+                    argv += ['--rule', apply_rule]
+                if is_admin:
+                    argv += ['--is_admin']
+                if target_path:
+                    argv += ['--target', target_path]
+                with mock.patch.object(sys, 'argv', argv):
+                    shell.main()
+            else:
+                shell.tool(policy_path, access_path, apply_rule, is_admin, target_path)
         crash = None
-    except Exception as e:   # noqa
+    except (Exception, SystemExit) as e:   # noqa
         crash = type(e).__name__
     verdicts = []
     for line in buf.getvalue().splitlines():
